@@ -180,6 +180,7 @@ def check(run):
         # real concurrent processes
         process_family(run, rng, scratch, 2 if quick else 12)
         edge_values_family(run, scratch)
+        mutated_bvalue_family(run, scratch)
         from jugverif import execchecks as _X
         _X.loop_correspondence(run, drv)
         if drv is not None and run.corr_disagreements == 0:
@@ -427,6 +428,67 @@ mark('after-bvalue-of-None %r' % (v,))
 b = good(10 if v is None else 20)
 %(bad)s
 '''
+
+
+MUT_JUGFILE = """import os
+from jug import TaskGenerator, barrier, bvalue, value
+HERE = os.path.dirname(os.path.abspath(__file__))
+def mark(m):
+    open(os.path.join(HERE, 'marks.log'), 'a').write(m + '\\n')
+@TaskGenerator
+def config():
+    return {'scale': 4, 'items': [1, 2, 3], 'extra': [10]}
+@TaskGenerator
+def names():
+    return ['a', 'b', 'c']
+@TaskGenerator
+def mul(x, k):
+    return x * k
+@TaskGenerator
+def total(xs):
+    return sum(xs)
+cfg = bvalue(config())
+ns = bvalue(names())
+# the values bvalue() hands out belong to the jugfile: it takes them apart in place
+scale = cfg.pop('scale', 1)
+last = ns.pop()
+cfg['items'].append(len(ns))
+mark('phase-1 scale=%r last=%r items=%r' % (scale, last, cfg['items']))
+parts = [mul(x, scale) for x in cfg['items']]
+barrier()
+mark('phase-2 parts=%r' % (value(parts),))
+result = bvalue(total(parts))
+mark('phase-3 result=%r' % (result,))
+final = mul(result, len(last))
+"""
+
+
+def mutated_bvalue_family(run, scratch):
+    """a jugfile that changes the values bvalue() handed to it in place (pop, append): every load - the worker loads the file once per phase, in one process - must
+    hand out the stored value again, not an object an earlier load has already taken apart; the final values are those of the sequential run"""
+    d = os.path.join(scratch, 'mutated-bvalue')
+    os.makedirs(d)
+    open(os.path.join(d, 'jugfile.py'), 'w').write(MUT_JUGFILE)
+    rp = {'kind': 'mutated-bvalue', 'jugfile': MUT_JUGFILE}
+    run.case(('mutated-bvalue',), nontrivial=True)
+    run.count('mutated_bvalue_histories')
+    common = ['--will-cite', '--nr-wait-cycles', '2', '--wait-cycle-time', '0']
+    ex = L.jug_cli(['execute', 'jugfile.py'] + common, d)
+    chk = L.jug_cli(['check', 'jugfile.py', '--will-cite'], d)
+    try:
+        marks = [m for m in open(os.path.join(d, 'marks.log')).read().split('\n') if m]
+    except IOError:
+        marks = []
+    want1, want3 = "phase-1 scale=4 last='c' items=[1, 2, 3, 2]", 'phase-3 result=32'
+    wrong1 = sorted(set(m for m in marks if m.startswith('phase-1') and m != want1))
+    wrong3 = sorted(set(m for m in marks if m.startswith('phase-3') and m != want3))
+    if ex.returncode != 0 or chk.returncode != 0:
+        run.fail('mutated-bvalue-incomplete', 'a three-phase jugfile that takes the values of bvalue() apart in place: `jug execute` (one process) exits %d and `jug check` (a fresh process) then %d: %s; marks %s'
+                 % (ex.returncode, chk.returncode, ex.stdout[-200:], marks), rp)
+    elif wrong1 or wrong3 or want3 not in marks:
+        run.fail('bvalue-hands-out-used-object', 'a three-phase jugfile that takes the values of bvalue() apart in place (pop, append): the loads of one `jug execute` process saw %s; every load must see %r and the last %r '
+                 '(the stored values, as a sequential run and any fresh process see them)' % ((wrong1 + wrong3) or marks, want1, want3), rp)
+    core.rm_rf(d)
 
 
 def edge_values_family(run, scratch):
